@@ -24,6 +24,7 @@
   * READS: `frame0` = generated `ActiveQuery::new`; `Frame.push` = generated `add_read_simple` / `add_read` (stamps by
     max / min, edge recorded iff durability ≠ NEVER_CHANGE — or, with accumulators, the accumulated flag — in the
     non-persistence build); `Frame.pushCell` = generated `add_untracked_read`.
+  * `CycleRev.write / synth / lastChanged` (list-shaped `lch`) likewise, for every state whose `lch` has the 3 slots.
   Both seeded edits of `report_tracked_write` (C02-1: only the written slot; C01-2: only level d)
   break `genlogic_rt_report` (the closed form below), as does any change of the slice bounds.
 -/
@@ -32,6 +33,7 @@ import SalsaVerif.Model.Core
 import SalsaVerif.Model.Core3
 import SalsaVerif.Model.CoreSpec
 import SalsaVerif.Model.CoreAcc
+import SalsaVerif.Model.CycleRev
 import SalsaVerif.Proofs.CoreTop
 import SalsaVerif.Proofs.Core3EvictTop
 
@@ -333,6 +335,47 @@ theorem genlogic_rt_acc_push (f : Frame) (d : Dep) (r : Res) :
     simp [addRead, astA, Frame.push, Consts.Durability_NeverChange, bne3, h1, h2]
 
 end CoreAcc
+
+/-! ## Model/CycleRev (list-shaped `lch`, slot 0 unused) -/
+section CycleRev
+open SalsaVerif.Model.CycleRev
+
+def revsR (s : St) : List Nat := s.lch.set 0 s.cur
+
+theorem len3 {l : List Nat} (h : l.length = 3) : ∃ a b c, l = [a, b, c] := by
+  match l, h with
+  | [a, b, c], _ => exact ⟨a, b, c, rfl⟩
+
+theorem genlogic_rt_cyclerev_synth (s : St) (d : Nat) (hd : d ≤ 3) (hl : s.lch.length = 3) :
+    (syntheticWrite (revsR s) d).1 = revsR (synth s d) ∧ (synth s d).lch.length = 3 := by
+  obtain ⟨a, b, c, h⟩ := len3 hl
+  have : d = 0 ∨ d = 1 ∨ d = 2 ∨ d = 3 := by omega
+  rcases this with h' | h' | h' | h' <;> subst h' <;>
+    simp [syntheticWrite, revsR, synth, h, newRevision, reportTrackedWrite, reportTrackedWritePanics, currentRevision,
+      Revision_next, Consts.Durability_NeverChange, List.mapIdx_cons]
+
+theorem genlogic_rt_cyclerev_last_changed (s : St) (d : Nat) (hl : s.lch.length = 3) :
+    lastChangedRevision (revsR s) d = lastChanged s d := by
+  obtain ⟨a, b, c, h⟩ := len3 hl
+  match d with
+  | 0 => simp [lastChangedRevision, revsR, lastChanged, h]
+  | 1 => simp [lastChangedRevision, revsR, lastChanged, h]
+  | 2 => simp [lastChangedRevision, revsR, lastChanged, h]
+  | d + 3 => simp [lastChangedRevision, revsR, lastChanged, h, Revision_start]
+
+theorem genlogic_rt_cyclerev_write (s : St) (i v : Nat) (nd : Option Nat) (hl : s.lch.length = 3)
+    (hd : (s.inp.getD i ⟨0, 1, 0⟩).dur ≤ 3) :
+    (setField (revsR s) ⟨(s.inp.getD i ⟨0, 1, 0⟩).ca, (s.inp.getD i ⟨0, 1, 0⟩).dur⟩ nd).1 = revsR (write s i v nd) ∧
+    (write s i v nd).lch.length = 3 := by
+  obtain ⟨a, b, c, h⟩ := len3 hl
+  generalize hx : s.inp.getD i ⟨0, 1, 0⟩ = x at hd
+  have hx' : s.inp[i]?.getD ⟨0, 1, 0⟩ = x := by simpa [List.getD_eq_getElem?_getD] using hx
+  have : x.dur = 0 ∨ x.dur = 1 ∨ x.dur = 2 ∨ x.dur = 3 := by omega
+  rcases this with h' | h' | h' | h' <;>
+    simp [setField, setFieldPanics, setFieldReports, revsR, write, hx, hx', h, h', newRevision, reportTrackedWrite,
+      currentRevision, Revision_next, Consts.Durability_NeverChange, Consts.Durability_Low, List.mapIdx_cons]
+
+end CycleRev
 
 /-! ## non-vacuity: the hypotheses are met by concrete states, and the closed form is sharp -/
 
